@@ -86,18 +86,21 @@ pub fn kind_desc(kid: u8) -> (u8, u32, u32) {
         16 => (0, 128, 3),
         17 => (0, 64, 5),
         18 => (0, 16, 4),
-        _ => (0, 8, 0), // 19: the degenerate zero-word type Bvf<u8,0>, only in dedicated cases
+        19 => (0, 64, 4), // Bv256
+        20 => (0, 64, 8), // Bv512
+        21 => (0, 8, 9),
+        _ => (0, 8, 0), // 22: the degenerate zero-word type Bvf<u8,0>, only in dedicated cases
     }
 }
 
-pub const NKINDS: u8 = 19;
+pub const NKINDS: u8 = 22;
 pub const KD: u8 = 14;
 pub const KA: u8 = 15;
 
 pub fn kind_is_fixed(kid: u8) -> bool {
     kid < 14 || kid >= 16
 }
-pub const KZ: u8 = 19; // Bvf<u8,0>
+pub const KZ: u8 = 22; // Bvf<u8,0>
 pub fn fixed_kinds() -> Vec<u8> {
     (0..NKINDS).filter(|k| kind_is_fixed(*k)).collect()
 }
